@@ -135,3 +135,30 @@ Proof. apply map_app. Qed.
 Theorem load_together_is_one_by_one T gs :
   load_groups T gs = flat_map (fun g => load_groups T [g]) gs.
 Proof. unfold load_groups. induction gs as [|g r IH]; [reflexivity|]. cbn. now rewrite IH. Qed.
+
+(* ------------------------------------------------------------------ the comparison closures, as audited *)
+(* FilterAlgebra.eval's comparison cases (eval_cmp_const / eval_cmp_var over the oracles m_int / m_str and [cmp_obs]) are a
+   transcription of these bodies: which capture selector and go/types question feeds constant.Compare, in which operand
+   order, what an absent / unknown value answers, and how a `$*xs` capture is lifted. go2coq regenerates the same list from
+   filters.go / utils.go on every run; [cmp_closures_okb] demands equality, so an edit has to be re-audited here. *)
+Definition doc_cmp_closures : list (string * string) := [
+  ("makeLineConstFilter", "func(src, varname string, op token.Token, rhsValue constant.Value) filterFunc :: return func(params *filterParams) matchFilterResult { n := params.subNode(varname) if isAbsentNode(n) { return filterFailure(src) } lhsValue := constant.MakeInt64(int64(params.ctx.Fset.Position(n.Pos()).Line)) if constant.Compare(lhsValue, op, rhsValue) { return filterSuccess } return filterFailure(src) }");
+  ("makeLineFilter", "func(src, varname string, op token.Token, rhsVarname string) filterFunc :: return func(params *filterParams) matchFilterResult { lhs := params.subNode(varname) rhs := params.subNode(rhsVarname) if isAbsentNode(lhs) || isAbsentNode(rhs) { return filterFailure(src) } line1 := params.ctx.Fset.Position(lhs.Pos()).Line line2 := params.ctx.Fset.Position(rhs.Pos()).Line lhsValue := constant.MakeInt64(int64(line1)) rhsValue := constant.MakeInt64(int64(line2)) if constant.Compare(lhsValue, op, rhsValue) { return filterSuccess } return filterFailure(src) }");
+  ("makeTypeSizeConstFilter", "func(src, varname string, op token.Token, rhsValue constant.Value) filterFunc :: return func(params *filterParams) matchFilterResult { if list := asExprSlice(params.subNode(varname)); list != nil { return exprListFilterApply(src, list.GetExprSlice(), func(x ast.Expr) bool { typ := params.typeofNode(x) if !hasKnownSize(typ) { return false } lhsValue := constant.MakeInt64(params.ctx.Sizes.Sizeof(typ)) return constant.Compare(lhsValue, op, rhsValue) }) } typ := params.typeofNode(params.subExpr(varname)) if !hasKnownSize(typ) { return filterFailure(src) } lhsValue := constant.MakeInt64(params.ctx.Sizes.Sizeof(typ)) if constant.Compare(lhsValue, op, rhsValue) { return filterSuccess } return filterFailure(src) }");
+  ("makeTypeSizeFilter", "func(src, varname string, op token.Token, rhsVarname string) filterFunc :: return func(params *filterParams) matchFilterResult { lhsTyp := params.typeofNode(params.subExpr(varname)) rhsTyp := params.typeofNode(params.subExpr(rhsVarname)) if !hasKnownSize(lhsTyp) || !hasKnownSize(rhsTyp) { return filterFailure(src) } lhsValue := constant.MakeInt64(params.ctx.Sizes.Sizeof(lhsTyp)) rhsValue := constant.MakeInt64(params.ctx.Sizes.Sizeof(rhsTyp)) if constant.Compare(lhsValue, op, rhsValue) { return filterSuccess } return filterFailure(src) }");
+  ("makeValueIntConstFilter", "func(src, varname string, op token.Token, rhsValue constant.Value) filterFunc :: return func(params *filterParams) matchFilterResult { if list := asExprSlice(params.subNode(varname)); list != nil { return exprListFilterApply(src, list.GetExprSlice(), func(x ast.Expr) bool { lhsValue := intValueOf(params.ctx.Types, x) return lhsValue != nil && constant.Compare(lhsValue, op, rhsValue) }) } lhsValue := intValueOf(params.ctx.Types, params.subExpr(varname)) if lhsValue == nil { return filterFailure(src) } if constant.Compare(lhsValue, op, rhsValue) { return filterSuccess } return filterFailure(src) }");
+  ("makeValueIntFilter", "func(src, varname string, op token.Token, rhsVarname string) filterFunc :: return func(params *filterParams) matchFilterResult { lhsValue := intValueOf(params.ctx.Types, params.subExpr(varname)) if lhsValue == nil { return filterFailure(src) } rhsValue := intValueOf(params.ctx.Types, params.subExpr(rhsVarname)) if rhsValue == nil { return filterFailure(src) } if constant.Compare(lhsValue, op, rhsValue) { return filterSuccess } return filterFailure(src) }");
+  ("makeTextConstFilter", "func(src, varname string, op token.Token, rhsValue constant.Value) filterFunc :: return func(params *filterParams) matchFilterResult { s := params.nodeText(params.subNode(varname)) lhsValue := constant.MakeString(string(s)) if constant.Compare(lhsValue, op, rhsValue) { return filterSuccess } return filterFailure(src) }");
+  ("makeTextFilter", "func(src, varname string, op token.Token, rhsVarname string) filterFunc :: return func(params *filterParams) matchFilterResult { s1 := params.nodeText(params.subNode(varname)) lhsValue := constant.MakeString(string(s1)) n, _ := params.match.CapturedByName(rhsVarname) s2 := params.nodeText(n) rhsValue := constant.MakeString(string(s2)) if constant.Compare(lhsValue, op, rhsValue) { return filterSuccess } return filterFailure(src) }");
+  ("exprListFilterApply", "func(src string, list []ast.Expr, fn func(ast.Expr) bool) matchFilterResult :: for _, e := range list { if !fn(e) { return filterFailure(src) } } ;; return filterSuccess");
+  ("intValueOf", "func(info *types.Info, expr ast.Expr) constant.Value :: tv := info.Types[expr] ;; if tv.Value == nil { return nil } ;; if tv.Value.Kind() != constant.Int { return nil } ;; return tv.Value");
+  ("hasKnownSize", "func(typ types.Type) bool :: if isTypeParam(typ) { return false } ;; if basic, ok := typ.(*types.Basic); ok && basic.Info()&types.IsUntyped != 0 { return false } ;; return true");
+  ("isTypeParam", "func(typ types.Type) bool :: _, ok := typ.(*typeparams.TypeParam) ;; return ok");
+  ("isAbsentNode", "func(n ast.Node) bool :: if n == nil || gogrep.IsEmptyNodeSlice(n) { return true } ;; v := reflect.ValueOf(n) ;; return v.Kind() == reflect.Ptr && v.IsNil()")
+].
+
+Definition pair_eqb2 (a b : string * string) : bool := String.eqb (fst a) (fst b) && String.eqb (snd a) (snd b).
+
+Definition cmp_closures_okb (gen : list (string * string)) : bool :=
+  Nat.eqb (List.length gen) (List.length doc_cmp_closures) && nodupb (map fst gen)
+  && forallb (fun p => existsb (pair_eqb2 p) doc_cmp_closures) gen.
